@@ -1,3 +1,4 @@
 pub mod pipeline;
 pub mod cli;
 pub mod lsp;
+pub mod sanitize;
